@@ -183,8 +183,19 @@ def run(ctx):
                        mode=gm)
             try:
                 with np.errstate(all='ignore'):
-                    gu = Guillot2010(T_irr=Tirr, kappa_irr=kir, kappa_v1=kv1, kappa_v2=kv2, alpha=alpha, T_int=Tint)
-                    gu.initialize_profile(planet, n, P)
+                    if rng.random() < 0.5:
+                        # the values arrive through the fitting parameters after a valid profile was built and evaluated
+                        gu = Guillot2010()
+                        gu.initialize_profile(planet, n, P)
+                        _ = gu.profile
+                        fp = gu.fitting_parameters()
+                        for nm_, v_ in (('T_irr', Tirr), ('kappa_irr', kir), ('kappa_v1', kv1), ('kappa_v2', kv2),
+                                        ('alpha', alpha), ('T_int_guillot', Tint)):
+                            fp[nm_][3](v_)
+                        prm = dict(prm, set_through_fitting_parameters=True)
+                    else:
+                        gu = Guillot2010(T_irr=Tirr, kappa_irr=kir, kappa_v1=kv1, kappa_v2=kv2, alpha=alpha, T_int=Tint)
+                        gu.initialize_profile(planet, n, P)
                     prof = np.array(gu.profile, float)
                 res = 'ok'
             except InvalidModelException:
